@@ -19,56 +19,93 @@ Definition disarm (w : world) : world :=
 Definition set_inj (i : inj) (w : world) : world :=
   mkW (w_tree w) i (w_closed w) (w_trace w) (w_log w) (w_fired w).
 
+Definition is_os (e : cerr) : bool := match e with EFs _ => true | _ => false end.
+
 Definition is_killed {A} (r : out A) : bool := match r with RKilled => true | _ => false end.
 
 (** * unfired runs are fault-free runs *)
 Definition nice {A} (m : M A) : Prop :=
   forall w r w', m w = (r, w') ->
-    (w_inj w = NoInj -> w_inj w' = NoInj) /\
+    (w_inj w = NoInj -> w_inj w' = NoInj /\ is_killed r = false) /\
+    (forall n, w_inj w = Fault n -> w_inj w' = NoInj \/ exists n', w_inj w' = Fault n') /\
+    (forall n, w_inj w = Kill n -> exists n', w_inj w' = Kill n') /\
+    (forall n, w_inj w = Stop n ->
+       (exists n', w_inj w' = Stop n' /\ w_closed w' = w_closed w) \/ (w_inj w' = NoInj /\ w_closed w' = true)) /\
+    (w_closed w = true -> w_closed w' = true) /\
+    ((forall n, w_inj w <> Stop n) -> w_closed w' = w_closed w /\ forall n, w_inj w' <> Stop n) /\
     (is_killed r = false -> w_inj w' <> NoInj -> m (disarm w) = (r, disarm w')).
 
 Lemma nice_ret {A} (a : A) : nice (ret a).
-Proof. intros w r w' H. injection H as <- <-. split; auto. Qed.
+Proof. intros w r w' H. injection H as <- <-. repeat split; eauto. Qed.
 
 Lemma nice_throw {A} e : nice (@throw A e).
-Proof. intros w r w' H. injection H as <- <-. split; auto. Qed.
+Proof. intros w r w' H. injection H as <- <-. repeat split; eauto. Qed.
 
 Lemma nice_get_tree : nice get_tree.
-Proof. intros w r w' H. injection H as <- <-. split; auto. Qed.
+Proof. intros w r w' H. injection H as <- <-. repeat split; eauto. Qed.
 
 Lemma nice_get_closed : nice get_closed.
-Proof. intros w r w' H. injection H as <- <-. split; auto. Qed.
+Proof. intros w r w' H. injection H as <- <-. repeat split; eauto. Qed.
+
+Lemma nice_seq_aux {A B} (m : M A) (g : M B) w a w1 r w' :
+  nice m -> nice g -> m w = (a, w1) -> g w1 = (r, w') ->
+    (w_inj w = NoInj -> w_inj w' = NoInj /\ is_killed r = false) /\
+    (forall n, w_inj w = Fault n -> w_inj w' = NoInj \/ exists n', w_inj w' = Fault n') /\
+    (forall n, w_inj w = Kill n -> exists n', w_inj w' = Kill n') /\
+    (forall n, w_inj w = Stop n ->
+       (exists n', w_inj w' = Stop n' /\ w_closed w' = w_closed w) \/ (w_inj w' = NoInj /\ w_closed w' = true)) /\
+    (w_closed w = true -> w_closed w' = true) /\
+    ((forall n, w_inj w <> Stop n) -> w_closed w' = w_closed w /\ forall n, w_inj w' <> Stop n) /\
+    (w_inj w' <> NoInj -> w_inj w1 <> NoInj).
+Proof.
+  intros Hm Hg E1 E2.
+  destruct (Hm _ _ _ E1) as (M1 & M2 & M3 & M4 & M5 & M7 & M6). destruct (Hg _ _ _ E2) as (F1 & F2 & F3 & F4 & F5 & F7 & F6).
+  split; [|split; [|split; [|split; [|split; [|split]]]]].
+  - intros I. destruct (M1 I) as [I1 _]. now apply F1.
+  - intros n I. destruct (M2 n I) as [I1 | [n' I1]]; [left; now apply F1 | eauto].
+  - intros n I. destruct (M3 n I) as [n' I1]. eauto.
+  - intros n I. destruct (M4 n I) as [[n' [I1 C1]] | [I1 C1]].
+    + destruct (F4 n' I1) as [[n2 [I2 C2]] | [I2 C2]]; [left; exists n2; split; congruence | right; auto].
+    + right. split; [now apply F1 | auto].
+  - auto.
+  - intros NS. destruct (M7 NS) as [C1 NS1]. destruct (F7 NS1) as [C2 NS2]. split; [congruence | exact NS2].
+  - intros NI X. apply NI. now apply F1.
+Qed.
 
 Lemma nice_bind {A B} (m : M A) (f : A -> M B) : nice m -> (forall a, nice (f a)) -> nice (bind m f).
 Proof.
   intros Hm Hf w r w' H. unfold bind in *.
   destruct (m w) as [[a|e|] w1] eqn:E1.
-  - destruct (Hm _ _ _ E1) as [M1 M2]. destruct (Hf a _ _ _ H) as [F1 F2]. split; [auto|].
-    intros NK NI. assert (NI1 : w_inj w1 <> NoInj) by (intros X; apply NI; auto).
-    rewrite (M2 eq_refl NI1). now apply F2.
-  - injection H as <- <-. destruct (Hm _ _ _ E1) as [M1 M2]. split; [auto|].
-    intros NK NI. now rewrite (M2 eq_refl NI).
-  - injection H as <- <-. destruct (Hm _ _ _ E1) as [M1 M2]. split; [auto|]. discriminate.
+  - destruct (nice_seq_aux m (f a) w (ROk a) w1 r w' Hm (Hf a) E1 H) as (S1 & S2 & S3 & S4 & S5 & S7 & S6).
+    repeat split; auto; try apply S1; try apply S7; auto.
+    intros NK NI. destruct (Hm _ _ _ E1) as (_ & _ & _ & _ & _ & _ & M6). destruct (Hf a _ _ _ H) as (_ & _ & _ & _ & _ & _ & F6).
+    rewrite (M6 eq_refl (S6 NI)). now apply F6.
+  - injection H as <- <-. destruct (Hm _ _ _ E1) as (M1 & M2 & M3 & M4 & M5 & M7 & M6). repeat split; auto; try apply M1; try apply M7; auto.
+    intros NK NI. now rewrite (M6 eq_refl NI).
+  - injection H as <- <-. destruct (Hm _ _ _ E1) as (M1 & M2 & M3 & M4 & M5 & M7 & M6). repeat split; auto; try apply M1; try apply M7; auto. discriminate.
 Qed.
 
 Lemma nice_catch {A} (m : M A) (h : cerr -> M A) : nice m -> (forall e, nice (h e)) -> nice (catch m h).
 Proof.
   intros Hm Hh w r w' H. unfold catch in *.
   destruct (m w) as [[a|e|] w1] eqn:E1.
-  - injection H as <- <-. destruct (Hm _ _ _ E1) as [M1 M2]. split; [auto|].
-    intros NK NI. now rewrite (M2 eq_refl NI).
-  - destruct (Hm _ _ _ E1) as [M1 M2]. destruct (Hh e _ _ _ H) as [F1 F2]. split; [auto|].
-    intros NK NI. assert (NI1 : w_inj w1 <> NoInj) by (intros X; apply NI; auto).
-    rewrite (M2 eq_refl NI1). now apply F2.
-  - injection H as <- <-. destruct (Hm _ _ _ E1) as [M1 M2]. split; [auto|]. discriminate.
+  - injection H as <- <-. destruct (Hm _ _ _ E1) as (M1 & M2 & M3 & M4 & M5 & M7 & M6). repeat split; auto; try apply M1; try apply M7; auto.
+    intros NK NI. now rewrite (M6 eq_refl NI).
+  - destruct (nice_seq_aux m (h e) w (RErr e) w1 r w' Hm (Hh e) E1 H) as (S1 & S2 & S3 & S4 & S5 & S7 & S6).
+    repeat split; auto; try apply S1; try apply S7; auto.
+    intros NK NI. destruct (Hm _ _ _ E1) as (_ & _ & _ & _ & _ & _ & M6). destruct (Hh e _ _ _ H) as (_ & _ & _ & _ & _ & _ & F6).
+    rewrite (M6 eq_refl (S6 NI)). now apply F6.
+  - injection H as <- <-. destruct (Hm _ _ _ E1) as (M1 & M2 & M3 & M4 & M5 & M7 & M6). repeat split; auto; try apply M1; try apply M7; auto. discriminate.
 Qed.
 
 Lemma nice_step s : nice (step s).
 Proof.
   intros w r w' H. unfold step in H. destruct w as [t i cl tr lg fr]. cbn in *.
   destruct i as [|[|n]|[|n]|[|n]]; cbn in *.
-  all: try (injection H as <- <-; cbn; split; [discriminate | intros; try discriminate; try congruence]).
-  all: destruct (apply_step s t); injection H as <- <-; cbn; (split; [try discriminate; auto | intros; try reflexivity; try congruence]).
+  all: try (injection H as <- <-; cbn; repeat split; try discriminate; eauto; intros; try discriminate; try congruence;
+            try (exfalso; match goal with NS : forall n, _ <> Stop n |- _ => eapply NS; reflexivity end)).
+  all: destruct (apply_step s t); injection H as <- <-; cbn; repeat split; try discriminate; eauto; intros; try reflexivity; try congruence;
+       try discriminate; try (exfalso; match goal with NS : forall n, _ <> Stop n |- _ => eapply NS; reflexivity end).
 Qed.
 
 Lemma nice_andthen {A B} (m : M A) (k : M B) : nice m -> nice k -> nice (m ;; k).
@@ -230,3 +267,208 @@ Proof. unfold upgrade_object. nice_tac. Qed.
 Lemma nice_reset_all c : nice (reset_all c).
 Proof. unfold reset_all. nice_tac. Qed.
 #[global] Hint Resolve nice_reset_all : nicedb.
+
+(** * a fault that fired is never absorbed by acquire / prep / install *)
+Definition is_fault (i : inj) : bool := match i with Fault _ => true | _ => false end.
+
+(** a fault that fired inside m surfaces as an error that is not an error of the operating system *)
+Definition FE {A} (m : M A) : Prop :=
+  forall w r w', m w = (r, w') -> is_fault (w_inj w) = true -> w_inj w' = NoInj ->
+    exists e, r = RErr e /\ is_os e = false.
+
+(** m, run without pending event, always ends in an error that is not an OS error *)
+Definition AT {A} (m : M A) : Prop :=
+  forall w, w_inj w = NoInj -> exists e w', m w = (RErr e, w') /\ is_os e = false.
+
+Lemma is_fault_inv i : is_fault i = true -> exists n, i = Fault n.
+Proof. destruct i; try discriminate. eauto. Qed.
+
+Lemma FE_ret {A} (a : A) : FE (ret a).
+Proof. intros w r w' H F I. injection H as <- <-. rewrite I in F. discriminate. Qed.
+
+Lemma FE_throw {A} e : FE (@throw A e).
+Proof. intros w r w' H F I. injection H as <- <-. rewrite I in F. discriminate. Qed.
+
+Lemma FE_get_tree : FE get_tree.
+Proof. intros w r w' H F I. injection H as <- <-. rewrite I in F. discriminate. Qed.
+
+Lemma FE_get_closed : FE get_closed.
+Proof. intros w r w' H F I. injection H as <- <-. rewrite I in F. discriminate. Qed.
+
+Lemma FE_step s : FE (step s).
+Proof.
+  intros w r w' H F I. unfold step in H. destruct w as [t i cl tr lg fr]. cbn in *.
+  destruct i as [|[|n]|[|n]|[|n]]; try discriminate.
+  - injection H as <- <-. eauto.
+  - destruct (apply_step s t); injection H as <- <-; discriminate.
+Qed.
+
+Lemma FE_bind {A B} (m : M A) (f : A -> M B) : nice m -> FE m -> (forall a, FE (f a)) -> FE (bind m f).
+Proof.
+  intros Nm Hm Hf w r w' H F I. unfold bind in H.
+  destruct (m w) as [[a|e|] w1] eqn:E1.
+  - destruct (is_fault_inv _ F) as [n Fn]. destruct (Nm _ _ _ E1) as (_ & M2 & _ & _ & _ & _ & _).
+    destruct (M2 n Fn) as [I1 | [n' I1]].
+    + destruct (Hm _ _ _ E1 F I1) as [e [X _]]. discriminate.
+    + apply (Hf a _ _ _ H); [now rewrite I1 | exact I].
+  - injection H as <- <-. destruct (Hm _ _ _ E1 F I) as [e' [X O]]. injection X as <-. eauto.
+  - injection H as <- <-. destruct (Hm _ _ _ E1 F I) as [e [X _]]. discriminate.
+Qed.
+
+Lemma FE_andthen {A B} (m : M A) (k : M B) : nice m -> FE m -> FE k -> FE (m ;; k).
+Proof. intros. apply FE_bind; auto. Qed.
+
+Lemma FE_catch {A} (m : M A) (h : cerr -> M A) :
+  nice m -> FE m -> (forall e, is_os e = false -> AT (h e)) -> (forall e, FE (h e)) -> FE (catch m h).
+Proof.
+  intros Nm Hm Ha Hh w r w' H F I. unfold catch in H.
+  destruct (m w) as [[a|e|] w1] eqn:E1.
+  - injection H as <- <-. destruct (Hm _ _ _ E1 F I) as [e [X _]]. discriminate.
+  - destruct (is_fault_inv _ F) as [n Fn]. destruct (Nm _ _ _ E1) as (_ & M2 & _ & _ & _ & _ & _).
+    destruct (M2 n Fn) as [I1 | [n' I1]].
+    + destruct (Hm _ _ _ E1 F I1) as [e' [X O]]. injection X as <-.
+      destruct (Ha e O w1 I1) as (e2 & w2 & E2 & O2). rewrite E2 in H. injection H as <- <-. eauto.
+    + apply (Hh e _ _ _ H); [now rewrite I1 | exact I].
+  - injection H as <- <-. destruct (Hm _ _ _ E1 F I) as [e [X _]]. discriminate.
+Qed.
+
+Lemma FE_attempt_bind {A B} (m : M A) (k : option cerr -> M B) :
+  nice m -> FE m -> FE (k None) -> (forall e, is_os e = false -> AT (k (Some e))) -> (forall e, FE (k (Some e))) ->
+  FE (bind (attempt m) k).
+Proof.
+  intros Nm Hm Hn Ha Hs w r w' H F I. unfold bind, attempt, catch, ret in H. unfold bind in H.
+  destruct (m w) as [[a|e|] w1] eqn:E1.
+  - destruct (is_fault_inv _ F) as [n Fn]. destruct (Nm _ _ _ E1) as (_ & M2 & _ & _ & _ & _ & _).
+    destruct (M2 n Fn) as [I1 | [n' I1]].
+    + destruct (Hm _ _ _ E1 F I1) as [e [X _]]. discriminate.
+    + apply (Hn _ _ _ H); [now rewrite I1 | exact I].
+  - destruct (is_fault_inv _ F) as [n Fn]. destruct (Nm _ _ _ E1) as (_ & M2 & _ & _ & _ & _ & _).
+    destruct (M2 n Fn) as [I1 | [n' I1]].
+    + destruct (Hm _ _ _ E1 F I1) as [e' [X O]]. injection X as <-.
+      destruct (Ha e O w1 I1) as (e2 & w2 & E2 & O2). rewrite E2 in H. injection H as <- <-. eauto.
+    + apply (Hs e _ _ _ H); [now rewrite I1 | exact I].
+  - injection H as <- <-. destruct (Hm _ _ _ E1 F I) as [e [X _]]. discriminate.
+Qed.
+
+Lemma FE_forM {A} (l : list A) f : (forall x, nice (f x)) -> (forall x, FE (f x)) -> FE (forM_ l f).
+Proof. intros Nf Hf. induction l; cbn [forM_]; [apply FE_ret | apply FE_andthen; auto]. Qed.
+
+Lemma AT_throw {A} e : is_os e = false -> AT (@throw A e).
+Proof. intros O w I. exists e, w. auto. Qed.
+
+Lemma AT_attempt_andthen {A B} (m : M A) (k : M B) : nice m -> AT k -> AT (attempt m ;; k).
+Proof.
+  intros Nm Hk w I. unfold andthen, bind, attempt, catch, ret. unfold bind.
+  destruct (m w) as [[a|e|] w1] eqn:E1; destruct (Nm _ _ _ E1) as (M1 & _ & _ & _ & _ & _ & _); destruct (M1 I) as [I1 NK];
+    try discriminate; now apply Hk.
+Qed.
+
+Create HintDb fedb.
+#[global] Hint Resolve FE_ret FE_throw FE_get_tree FE_get_closed FE_step : fedb.
+
+Ltac at_tac :=
+  repeat first [ apply AT_throw; reflexivity | apply AT_attempt_andthen; [solve [auto 1 with nicedb nocore | nice_tac]|] ].
+
+Ltac fe_tac :=
+  repeat first
+    [ solve [auto 1 with fedb nocore]
+    | match goal with
+      | |- FE (bind (attempt ?m) ?k) =>
+          apply FE_attempt_bind;
+          [ solve [auto 1 with nicedb nocore | nice_tac] | | | let e := fresh "e" in let O := fresh "O" in intros e O; destruct e; try discriminate; at_tac
+          | let e := fresh "e" in intros e; destruct e ]
+      | |- FE (andthen (attempt ?m) ?k) =>
+          apply FE_attempt_bind;
+          [ solve [auto 1 with nicedb nocore | nice_tac] | | | let e := fresh "e" in let O := fresh "O" in intros e O; at_tac
+          | let e := fresh "e" in intros e ]
+      | |- FE (bind ?m ?f) => apply FE_bind; [ solve [auto 1 with nicedb nocore | nice_tac] | | intros ]
+      | |- FE (andthen ?m ?k) => apply FE_andthen; [ solve [auto 1 with nicedb nocore | nice_tac] | | ]
+      | |- FE (catch ?m ?h) =>
+          apply FE_catch;
+          [ solve [auto 1 with nicedb nocore | nice_tac] | | let e := fresh "e" in let O := fresh "O" in intros e O; destruct e; try discriminate; at_tac
+          | let e := fresh "e" in intros e; destruct e ]
+      | |- FE (forM_ _ _) => apply FE_forM; [ intros; solve [auto 1 with nicedb nocore | nice_tac] | intros ]
+      | |- FE (match ?x with _ => _ end) => destruct x
+      | |- FE (if ?x then _ else _) => destruct x
+      | |- FE (let _ := _ in _) => cbv zeta
+      end ].
+
+Lemma FE_cda_up rp : FE (cda_up rp).
+Proof. induction rp as [|x rp IH]; cbn [cda_up]; fe_tac; auto. Qed.
+#[global] Hint Resolve FE_cda_up : fedb.
+
+Lemma FE_cda_down rp : forall n, FE (cda_down rp n).
+Proof. induction rp as [|x rp IH]; intros [|n]; cbn [cda_down]; fe_tac; auto. Qed.
+#[global] Hint Resolve FE_cda_down : fedb.
+
+Lemma FE_cdu rp : FE (cdu_rev rp).
+Proof. induction rp as [|x rp IH]; cbn [cdu_rev]; fe_tac; auto. Qed.
+#[global] Hint Resolve FE_cdu : fedb.
+
+Lemma FE_create_dir_all p : FE (create_dir_all p).
+Proof. unfold create_dir_all. fe_tac. Qed.
+#[global] Hint Resolve FE_create_dir_all : fedb.
+
+Lemma FE_clean_dirs_up p : FE (clean_dirs_up p).
+Proof. unfold clean_dirs_up. fe_tac. Qed.
+#[global] Hint Resolve FE_clean_dirs_up : fedb.
+
+Lemma FE_remove_file_inf p : FE (remove_file_inf p).
+Proof. unfold remove_file_inf. fe_tac. Qed.
+#[global] Hint Resolve FE_remove_file_inf : fedb.
+
+Lemma FE_write_file p c : FE (write_file p c).
+Proof. unfold write_file. fe_tac. Qed.
+#[global] Hint Resolve FE_write_file : fedb.
+
+Lemma FE_copy_file a c : FE (copy_file a c).
+Proof. unfold copy_file. fe_tac. Qed.
+#[global] Hint Resolve FE_copy_file : fedb.
+
+Lemma FE_write_namaste d s : FE (write_namaste d s).
+Proof. unfold write_namaste. fe_tac. Qed.
+#[global] Hint Resolve FE_write_namaste : fedb.
+
+Lemma FE_get_inventory c r : FE (get_inventory c r).
+Proof. unfold get_inventory. fe_tac. Qed.
+#[global] Hint Resolve FE_get_inventory : fedb.
+
+Lemma FE_ensure_open : FE (ensure_open).
+Proof. unfold ensure_open. fe_tac. Qed.
+#[global] Hint Resolve FE_ensure_open : fedb.
+
+Lemma FE_copy_inventory_files c a d : FE (copy_inventory_files c a d).
+Proof. unfold copy_inventory_files. fe_tac. Qed.
+#[global] Hint Resolve FE_copy_inventory_files : fedb.
+
+Lemma FE_stage_inventory c i f : FE (stage_inventory c i f).
+Proof. unfold stage_inventory. fe_tac. Qed.
+#[global] Hint Resolve FE_stage_inventory : fedb.
+
+Lemma FE_rm_staged_files c l : FE (rm_staged_files c l).
+Proof. unfold rm_staged_files. fe_tac. Qed.
+#[global] Hint Resolve FE_rm_staged_files : fedb.
+
+Lemma FE_rm_orphaned_files c i : FE (rm_orphaned_files c i).
+Proof. unfold rm_orphaned_files. fe_tac. Qed.
+#[global] Hint Resolve FE_rm_orphaned_files : fedb.
+
+Lemma FE_write_new_object c : FE (write_new_object c).
+Proof. unfold write_new_object. fe_tac. Qed.
+#[global] Hint Resolve FE_write_new_object : fedb.
+
+Lemma FE_write_new_version c i : FE (write_new_version c i).
+Proof. unfold write_new_version. fe_tac. Qed.
+#[global] Hint Resolve FE_write_new_version : fedb.
+
+Lemma FE_prep c : FE (prep c).
+Proof. unfold prep. fe_tac. Qed.
+#[global] Hint Resolve FE_prep : fedb.
+
+Lemma FE_install c i : FE (install c i).
+Proof. unfold install. fe_tac. Qed.
+#[global] Hint Resolve FE_install : fedb.
+
+Lemma FE_acquire c : FE (acquire c).
+Proof. unfold acquire. fe_tac. Qed.
+#[global] Hint Resolve FE_acquire : fedb.
